@@ -66,6 +66,9 @@ CHECKS = {
     'C07': ('3/C07', 'bounded-exhaustive enumeration of datasets x schemes against the set of ALL brute-force minimisers; exhaustive enumeration of all (ordered partition, consensus) pairs for the consistency test',
             'For every dataset of DS(3,2) x 16 schemes, DS(3,3) x 6, DS(4,2) x 2: ParFront is a partition, a merge of consecutive ParCons groups, and every minimiser respects it; consistent_with is compared with its definition on all pairs of WO(U) x (WO(U) + rankings over sub/super/other sets), n<=4, with and without an associated dataset, under a watchdog.',
             'malformed partitions / consensuses not covering their dataset are outside the property'),
+    'C15': ('3/C15', 'explicit-state exploration of a transition system whose state is the complete __dict__ snapshot of (dataset, scheme): every event (75: all algorithm configurations x flags, score/description reads, partitions, views, write, scheme operations) from every start state under every schedule, plus all ordered pairs of events on shared objects vs fresh copies',
+            'Every event is shown to be a self-loop on the complete snapshot from every dataset of DS(3,2) under three label presentations (so, by induction, any call sequence leaves the inputs unchanged), every event run twice gives equal results (KwikSort: under the same schedule), and all ordered pairs of events on shared objects give the same second result as on fresh copies (hidden global state).',
+            'snapshot compares content (not object identity); events that raise must still leave inputs untouched'),
 }
 
 PENDING = {}
